@@ -83,7 +83,7 @@ double gcirc(double ra1, double dec1,
 {
 
     double sindec1, cosdec1, sindec2, cosdec2, 
-           radiff, cosradiff, dis, cosdis; 
+           radiff, cosradiff, sinradiff, a, b, dis, cosdis, sindis; 
 
     if (ra1 == ra2 && dec1 == dec2) {
         return 0.0;
@@ -97,13 +97,18 @@ double gcirc(double ra1, double dec1,
 
     radiff = (ra1-ra2)*D2R;
     cosradiff = cos(radiff);
+    sinradiff = sin(radiff);
 
     cosdis = sindec1*sindec2 + cosdec1*cosdec2*cosradiff;
 
-    if (cosdis < -1.0) cosdis=-1.0;
-    if (cosdis >  1.0) cosdis= 1.0;
+    // the arc cosine of cosdis has no precision left for small separations
+    // (cosdis rounds to 1 below about 1e-6 degrees); use the arc tangent of
+    // sine over cosine, which is accurate for all separations
+    a = cosdec2*sinradiff;
+    b = cosdec1*sindec2 - sindec1*cosdec2*cosradiff;
+    sindis = sqrt(a*a + b*b);
 
-    dis = acos(cosdis);
+    dis = atan2(sindis, cosdis);
     if (degrees) {
         dis *= R2D;
     }
